@@ -64,7 +64,7 @@ def main():
         "carry every byte value (quotes, backslashes, controls, NUL, invalid UTF-8, lengths 0..255); after each batch GET "
         "/api/v1/leases.json must parse as JSON and equal the rows read directly from the SQLite file (address, client id, start, "
         "expiry, one entry per row); /metrics gauges compared with counts from the same rows and the clock, on the empty store, with "
-        "live leases and after a restart with some leases shifted into the past; distinct = (observation, name class, outcome)", floor=8)
+        "live leases, after a restart with some leases shifted into the past, and on a fresh store whose every fdatasync is delayed by 150 ms (strace injection) while three scrapers run during a burst of DISCOVERs (gauge total within [exchanges answered when the scrape began, exchanges sent]); distinct = (observation, name class, outcome)", floor=8)
     sb = None
     try:
         sb = dhcplib.ErbiumSandbox("c20")
@@ -231,6 +231,91 @@ def main():
         check_gauges("after-expiry")
         check_listing("after-expiry")
         leg.count("rows_in_store", n_rows)
+        # ---- slow storage: a fresh store whose every fdatasync takes 150 ms (strace delay injection), so that one packet's
+        # lease write keeps the store busy for hundreds of milliseconds (an SD card, a busy disk) and scrapes arrive while it
+        # is; what a scrape reports must still describe the store at some instant of the scrape
+        if base.sh("which strace", check=False).strip() == "":
+            leg.count("slow_storage_phase_skipped_no_strace", 1)
+        else:
+            p.stop()
+            for f in (DB, DB + "-journal"):
+                try:
+                    os.unlink(f)
+                except OSError:
+                    pass
+            wrapper = ["strace", "-f", "-qq", "-o", "/dev/null", "-e", "trace=fdatasync,fsync", "-e", "inject=fdatasync,fsync:delay_enter=150000"]
+            p = sb.start("erbium", CONF, wait_http=("127.0.0.1", 9968), wrapper=wrapper)
+            time.sleep(0.5)
+            check_gauges("slow-storage-empty")
+            done = 0
+            for k in range(2):
+                mac = bytes([2, 0x23, 0, 0, 0, k])
+                xid += 2
+                t0 = time.monotonic()
+                frames, off = dhcplib.exchange(sb.client, mac, 1, xid, options=[(55, bytes([1, 3, 6]))], wait=6.0)
+                if off:
+                    done += 1
+                    leg.count("slow_storage_discover_ms_total", int((time.monotonic() - t0) * 1000))
+            # (the store is not read with sqlite3 here: readers starve behind a writer that is always inside a commit.  The
+            # bounds come from the exchanges instead: a reply is sent after its lease is committed, so the rows present when a
+            # scrape begins are at least the exchanges answered by then, and at most everything sent)
+            stop = [False]
+            answered = [done]
+            scr = {"n": 0, "waited": 0, "bad": []}
+            burst = 6
+
+            def slow_scraper():
+                while not stop[0]:
+                    n0 = answered[0]
+                    t0 = time.monotonic()
+                    st, body, err = dhcplib.http_get(("127.0.0.1", 9968), "/metrics")
+                    dt = time.monotonic() - t0
+                    if st != 200:
+                        continue
+                    g = gauges(body)
+                    tot = (g.get("dhcp_active_leases") or 0) + (g.get("dhcp_expired_leases") or 0)
+                    scr["n"] += 1
+                    if dt > 0.1:
+                        scr["waited"] += 1
+                    if not (n0 <= tot <= done + burst) or "dhcp_active_leases" not in g or "dhcp_expired_leases" not in g:
+                        scr["bad"].append((n0, tot, done + burst, int(dt * 1000)))
+                    time.sleep(0.03)
+
+            ths = [threading.Thread(target=slow_scraper) for _ in range(3)]
+            xids = set()
+            for k in range(burst):
+                mac = bytes([2, 0x23, 1, 0, 0, k])
+                xid += 1
+                xids.add(xid)
+                sb.client.send(dhcplib.frame(mac, dhcplib.dhcp_payload(1, mac, xid, options=[(55, bytes([1, 3, 6]))])))
+            time.sleep(0.05)
+            for th in ths:
+                th.start()
+            seen = set()
+            t_end = time.monotonic() + 12.0
+            while time.monotonic() < t_end and len(seen) < burst:
+                for f in sb.client.recv_frames(0.5, want=dhcplib.is_dhcp_reply, stop_after=1):
+                    d = dhcplib.dhcp_of_frame(f)
+                    if d and d.get("xid") in xids and d["xid"] not in seen:
+                        seen.add(d["xid"])
+                        answered[0] = done + len(seen)
+            got = list(seen)
+            stop[0] = True
+            for th in ths:
+                th.join(timeout=20)
+            leg.eval()
+            leg.count("slow_storage_scrapes", scr["n"])
+            leg.count("slow_storage_scrapes_that_waited_over_100ms", scr["waited"])
+            leg.count("slow_storage_burst_replies", len(got or []))
+            leg.cls("slow-storage-scrapes|%s|%s" % ("some-waited" if scr["waited"] else "none-waited", "consistent" if not scr["bad"] else "stale"))
+            if scr["bad"]:
+                leg.violation("C20/gauges-stale-while-the-store-is-busy", "%d of %d scrapes outside [exchanges answered when it began, exchanges sent] with every fdatasync taking 150 ms; first: answered before %d, active+expired %d, sent %d, scrape took %d ms" % (
+                    (len(scr["bad"]), scr["n"]) + scr["bad"][0]), {"engine": "c20-e2e", "phase": "slow-storage", "bad": scr["bad"][:10]})
+            elif done == 0 or scr["n"] == 0:
+                leg.count("slow_storage_phase_observed_nothing", 1)
+            time.sleep(0.3)
+            check_gauges("slow-storage-after")
+            check_listing("slow-storage-after")
         for pr in sb.procs:
             for line in pr.panics():
                 leg.violation("C20/handler-panic/%s" % base.panic_signature(line), line.strip(), {"engine": "c20-e2e"})
